@@ -38,6 +38,8 @@ Family (stated; all members enumerated, VERIF_SEED only permutes the order)
   more plain patterns of the OTHER two classes, each in one (node, global|local) list.
     k=1 named + anonymous: double states (13) x context: quick none; thorough <= 2 patterns
                      + the quoted "*" (a literal for GNU ld) alone and opposite a real *
+                     + extern "C" { * } alone; k=2: extern "C" { * } and * in the same section of
+                     the two nodes, both orders
     k=2: quick: single states, uncrossed (16) x context <= 1 pattern, (+crossed) x no context, none;
          thorough: double states, uncrossed x context <= 1, (+crossed) x no context, none; single
          states, uncrossed x <= 1 x chain
@@ -135,6 +137,7 @@ DPAT = {
     "exact": ('foo', {"foo": "exact"}),
     "xexact": ('extern "C++" { foo }', {"foo": "c++exact"}),
     "qstar": ('"*"', {}),
+    "cstar": ('extern "C" { * }', {s: "c-star" for s in SYMS}),
 }
 DORDER = {key: i for i, key in enumerate(DPAT)}
 CLASSES = {"star": ("star", "xstar"), "glob": ("glob", "xglob"), "exact": ("exact", "xexact")}
@@ -197,6 +200,12 @@ def dup_family(thorough):
         for lists in ((("qstar",), ()), ((), ("qstar",)), (("qstar",), ("star",)),
                       (("star",), ("qstar",))):
             fam.append((kind, 1, (lists,), "none"))
+        for w in (0, 1):      # extern "C" { * }: the same rule as * for GNU ld (a duplicate of it)
+            fam.append((kind, 1, (tuple(("cstar",) if i == w else () for i in (0, 1)),), "none"))
+    for w in (0, 1):
+        for first, second in (("cstar", "star"), ("star", "cstar")):
+            fam.append(("dup", 2, tuple(tuple((key,) if i == w else () for i in (0, 1))
+                                        for key in (first, second)), "none"))
     if thorough:
         add(("dup",), 2, True, 1, ("none",), True, crossed_depth=0)
         add(("dup",), 2, False, 1, ("chain",), False)
